@@ -512,3 +512,139 @@ def gen_markup_wild_case(r, idx):
     lines.append("M ete " + hexs(bs))
     lines.append("END")
     return lines
+
+
+# ---- canonical markup (C10) ------------------------------------------------------------------
+DESIGNATOR = {0: [48], 1: [60], 2: [37, 53], 3: [62], 4: [65], 5: [66], 6: [52], 7: [67], 8: [82], 9: [81],
+              10: [75], 11: [89], 12: [96], 13: [37, 54], 14: [90], 15: [72], 16: [61], 17: [85]}
+ALIASES = {7: [53], 8: [102], 9: [57], 12: [69], 15: [55]}
+HEXU = "0123456789ABCDEF"
+HEXL = "0123456789abcdef"
+
+
+def x_colour(r):
+    k = r.below(8)
+    if k < 3:
+        return ("low", r.below(10))
+    if k < 5:
+        return ("high", r.below(6), r.below(6), r.below(6))
+    if k < 6:
+        return ("grey", r.below(24))
+    return ("true", r.below(256), r.below(256), r.below(256))
+
+
+def x_colour_elem(c):
+    if c[0] == "low":
+        return (0, c[1], 0, 0)
+    if c[0] == "high":
+        return (1, 16 + 36 * c[1] + 6 * c[2] + c[3], 0, 0)
+    if c[0] == "grey":
+        return (2, 232 + c[1], 0, 0)
+    return (3, c[1], c[2], c[3])
+
+
+def x_colour_markup(c, fg, r, respell):
+    intro = {"low": "[]", "high": "<>", "grey": "{}", "true": "()"}[c[0]][0 if fg else 1]
+    out = [92, ord(intro)]
+    if c[0] == "low":
+        out += [48 + c[1]]
+    elif c[0] == "high":
+        out += [48 + c[1], 48 + c[2], 48 + c[3]]
+    elif c[0] == "grey":
+        out += [48 + c[1] // 10, 48 + c[1] % 10]
+    else:
+        hx = HEXL if (respell and r.chance(1, 2)) else HEXU
+        for v in c[1:]:
+            out += [ord(hx[v >> 4]), ord(hx[v & 15])]
+    return out
+
+
+def utf8_of(v):
+    if v <= 0x7F:
+        return (v, 0, 0)
+    if v <= 0x7FF:
+        return (0xC0 | (v >> 6), 0x80 | (v & 0x3F), 0)
+    return (0xE0 | (v >> 12), 0x80 | ((v >> 6) & 0x3F), 0x80 | (v & 0x3F))
+
+
+def gen_markup_case(r, idx, respell=False):
+    """a string of expressible elements, its canonical markup (directives only
+    for what differs from the previous element), and the elements expected"""
+    lines = ["CASE %d" % idx]
+    n = r.rng(0, 7)
+    markup, expect = [], []
+    cs, fg, bg, inten, ul, neg = 5, ("low", 9), ("low", 9), 0, 0, 0
+    prev_utf8 = False
+    for _ in range(n):
+        # what the element shall be
+        if r.chance(1, 3):
+            ncs = r.below(18)
+        else:
+            ncs = cs
+        uni = r.chance(1, 5)
+        nfg = x_colour(r) if r.chance(1, 3) else fg
+        nbg = x_colour(r) if r.chance(1, 4) else bg
+        nint = r.below(3) if r.chance(1, 3) else inten
+        nul = r.below(2) if r.chance(1, 4) else ul
+        nneg = r.below(2) if r.chance(1, 4) else neg
+        if r.chance(1, 12):
+            # the reset directive
+            markup += [92, 120]
+            fg, bg, inten, ul, neg = ("low", 9), ("low", 9), 0, 0, 0
+            nfg, nbg, nint, nul, nneg = fg, bg, inten, ul, neg
+        base_cs = 5 if prev_utf8 else cs
+        if not uni and (ncs != base_cs or (respell and r.chance(1, 6))):
+            d = DESIGNATOR[ncs]
+            if respell and ncs in ALIASES and r.chance(1, 2):
+                d = ALIASES[ncs]
+            markup += [92, 99] + d
+        if nint != inten or (respell and r.chance(1, 8)):
+            markup += [92, 105, {0: 61, 1: 62, 2: 60}[nint]]
+        if nneg != neg or (respell and r.chance(1, 8)):
+            markup += [92, 112, 45 if nneg else 43]
+        if nul != ul or (respell and r.chance(1, 8)):
+            markup += [92, 117, 43 if nul else 45]
+        if nfg != fg or (respell and r.chance(1, 8)):
+            markup += x_colour_markup(nfg, True, r, respell)
+        if nbg != bg or (respell and r.chance(1, 8)):
+            markup += x_colour_markup(nbg, False, r, respell)
+        fg, bg, inten, ul, neg = nfg, nbg, nint, nul, nneg
+        attr = x_colour_elem(fg) + x_colour_elem(bg) + (inten, ul, neg, 0)
+        if uni:
+            v = r.pick([r.below(0x80), r.rng(0x80, 0x7FF), r.rng(0x800, 0xFFFF), 0, 0x7F, 0xFFFF])
+            hx = HEXL if (respell and r.chance(1, 2)) else HEXU
+            markup += [92, 85] + [ord(hx[(v >> s) & 15]) for s in (12, 8, 4, 0)]
+            expect.append(el((18,) + utf8_of(v), attr))
+            prev_utf8 = True
+            cs = cs  # the charset directive state is reset to us_ascii by the decoder
+            cs = 5
+        else:
+            b = r.pick([r.rng(32, 126), r.below(256), 92])
+            if b == 92:
+                markup += [92, 92]
+            elif respell and r.chance(1, 4):
+                markup += [92, 67, 48 + b // 100, 48 + (b // 10) % 10, 48 + b % 10]
+            else:
+                markup += [b]
+            expect.append(el((ncs if not uni else 5, b, 0, 0), attr))
+            prev_utf8 = False
+            cs = ncs
+    lines.append("# WANT %d" % len(expect))
+    for e in expect:
+        lines.append("# WANTE " + e)
+    lines.append("M encode " + hexs(markup))
+    lines.append("M ets " + hexs(markup))
+    lines.append("END")
+    return lines
+
+
+def gen_plain_case(r, idx):
+    """text without backslashes decodes to itself with default attributes"""
+    lines = ["CASE %d" % idx]
+    bs = [b for b in (r.below(256) for _ in range(r.rng(0, 12))) if b != 92]
+    lines.append("# WANT %d" % len(bs))
+    for b in bs:
+        lines.append("# WANTE " + el((5, b, 0, 0), DEFAULT_ATTR))
+    lines.append("M encode " + hexs(bs))
+    lines.append("END")
+    return lines
